@@ -377,7 +377,7 @@ def uncontrolled_supplement():
     return res
 
 
-RUNS = {"quick": 6000, "thorough": 150000}
+RUNS = {"quick": 5000, "thorough": 90000}
 RULE = ("one evaluation = a seeded history of 1-4 batched calls (an externally supplied pool may be "
         "reused by later calls with other stacks, lattice systems and bin counts), each call a seeded "
         "stack (0-12 snapshots x 2-40 grains; random, clustered, mixed, with a duplicated snapshot in "
